@@ -92,6 +92,9 @@ func SignTxAs(txCfg client.TxConfig, chainID string, key, signWith Key, accNum, 
 	if err != nil {
 		return nil, err
 	}
+	// the transaction names key's public key; only the signature bytes come from signWith, so that
+	// nothing but the cryptographic check can refuse a forgery
+	sig.PubKey = key.Pub()
 	if err := b.SetSignatures(sig); err != nil {
 		return nil, err
 	}
